@@ -7,7 +7,7 @@ EXTENDS UserData, TLC
 VARIABLES kind, phase, ok
 Secs(k) == {[kind |-> k, creator |-> c, comp |-> m, sub |-> s, ver |-> 1, payload |-> <<65, 10, 1, 66, 0, 0>>] :
                c \in {79, 66, 120}, m \in {<<32, 0>>, <<17, 17>>, <<229, 0>>}, s \in {0, 1, 2, 3, 4, 255}}
-Behs == {"absent", "ok", "nondict", "none", "raise", "raise_empty", "importerror"}
+Behs == {"absent", "ok", "nondict", "none", "raise", "raise_empty", "importerror", "importfails"}
 Init == kind \in {"UD", "ED", "OTHER"} /\ phase = "chosen" /\ ok = TRUE
 Evaluate == /\ phase = "chosen" /\ phase' = "evaluated" /\ kind' = kind
             /\ ok' = \A s \in Secs(kind), p \in BOOLEAN, b \in Behs :
@@ -16,7 +16,7 @@ Evaluate == /\ phase = "chosen" /\ phase' = "evaluated" /\ kind' = kind
                         /\ (c \in {"json", "text"} => IsBuiltin(s))
                         /\ (c = "plugin" => p /\ ~IsBuiltin(s) /\ b \in {"ok", "nondict"})
                         /\ (~(c \in {"json", "text", "plugin"}) => CarriesDump(c))
-                        /\ (c = "dump+error" <=> (p /\ ~IsBuiltin(s) /\ s.kind # "OTHER" /\ b \in {"none", "raise", "raise_empty", "importerror"}))
+                        /\ (c = "dump+error" <=> (p /\ ~IsBuiltin(s) /\ s.kind # "OTHER" /\ b \in {"none", "raise", "raise_empty", "importerror", "importfails"}))
 Next == Evaluate
 Spec == Init /\ [][Next]_<<kind, phase, ok>>
 NeverDropped == ok
